@@ -463,4 +463,22 @@ theorem metadataProblems_write (d : Desc) (enum : List Code) (m : ModelT) (h : w
     obtain ⟨bs, hbs, hdat⟩ := r3 he
     exact entryProblems_plan d m rels e f _ bs.flatten hfn hbuf' he hdat (planProblems_nil d maps rels bs hr hts hbs)
 
+/-! ## non-vacuity -/
+
+/-- non-vacuity: a graph with one Cpu subgraph holding one scratch tensor; the hypotheses of both theorems hold with a non-empty relation -/
+def oneTensorDesc : Desc :=
+  { tensors := [{ name := [97], shape := [1, 2], originalShape := [1, 2], dtype := "int8", quant := none, values := none, isVariable := false,
+                  purpose := 0, memArea := 1, memType := WriterTbl.memTypeScratch, address := some 16, src := none }],
+    subgraphs := [{ name := [109], cpu := true, ops := [], originalInputs := [0], inputTensors := [0], outputTensors := [0],
+                    originalOutputPositions := none, virtualOutputs := [] }],
+    metadata := [], version := [49] }
+
+example : (match write oneTensorDesc, (subgraphsToWrite oneTensorDesc).mapM (prepSub oneTensorDesc.tensors) with
+    | .ok m, .ok subs => decide (m.subgraphs ≠ [] ∧ subs.map (sgAll oneTensorDesc.tensors) = [[0]] ∧ wellFormed m = [] ∧
+        metadataProblems oneTensorDesc m [([(0, 0)], 1)] = [] ∧ metadataProblems oneTensorDesc m [([(0, 1)], 1)] ≠ [])
+    | _, _ => false) = true := by
+  decide +kernel
+
+example : RelsOk [[0]] [([(0, 0)], 1)] := List.Forall₂.cons ⟨rfl, by decide⟩ List.Forall₂.nil
+
 end VelaVerif.Tflite.Spec
